@@ -207,6 +207,45 @@ def ef_episode(r, src="ef"):
     return ep
 
 
+def efb_episode(r, src="efb"):
+    """The real EliasFanoConcurrentBuilder: thread t calls set(i, x_i) for its
+    indices. u is chosen as 1.5 * n * 2^l so that the builder's floating-point
+    choice of l is unambiguous; the jobs carry x (what the executor passes to
+    `set`) and, for the specification, the low part and the high position that
+    `set` derives from it -- Trace_Atomic checks that derivation itself."""
+    n = r.randrange(2, 160)
+    l = r.choice([0, 1, 2, 3, 4, 5, 7, 8, 11, 13, 16, 17, 20])
+    while 3 * n * (1 << l) // 2 >= 2 ** 30:
+        l -= 1
+    u = n if l == 0 else 3 * n * (1 << (l - 1))
+    k = r.randrange(4)
+    if k == 0:
+        xs = sorted(r.randrange(0, u + 1) for _ in range(n))
+    elif k == 1:   # clustered: many equal high parts, runs of equal values
+        xs = sorted(r.choice([0, u // 2, u]) + 0 for _ in range(n))
+    elif k == 2:   # dense at the start, one big jump to u
+        xs = sorted([min(u, i // 2) for i in range(n - 1)] + [u])
+    else:
+        xs = sorted(r.randrange(0, max(1, u // 3)) for _ in range(n))
+    nt = r.randrange(2, 9)
+    blen = n + (u >> l) + 1
+    nfw = max(1, (n * l + 63) // 64)
+    nbw = (blen + 63) // 64
+    ep = {"fam": "atomic", "src": src, "mode": "efb", "budget_ms": BUDGET_MS, "w": 64, "wt": "usize",
+          "ord": "relaxed", "width": l, "flen": n, "nfw": nfw, "finit": [[] for _ in range(nfw)],
+          "blen": blen, "nbw": nbw, "binit": [[] for _ in range(nbw)], "n": n, "u": u}
+    prog = [[] for _ in range(nt)]
+    own = owner_map(r, n, nt)
+    for i in range(n):
+        t = own[i] if own[i] is not None else r.randrange(nt)
+        j = job("efset", i, xs[i] & ((1 << l) - 1), (xs[i] >> l) + i)
+        j["x"] = xs[i]
+        prog[t].append(j)
+    ep["prog"] = [order(r, p) for p in prog]
+    ep["ops"] = schedule(r, nt, 4 * n) + [{"op": "end"}]
+    return ep
+
+
 def contended_episode(r, full=False, src="hot"):
     """Few fields around one word boundary, many threads, one job each plus
     swaps on one bit: maximal contention, many CAS retries."""
@@ -260,8 +299,10 @@ def random_episodes(seed, count, full=False):
         x = r.random()
         if x < 0.45:
             eps.append(writers_episode(r, full=full))
-        elif x < 0.60:
+        elif x < 0.55:
             eps.append(ef_episode(r))
+        elif x < 0.65:
+            eps.append(efb_episode(r))
         elif x < 0.90:
             eps.append(contended_episode(r, full=full))
         else:
